@@ -356,6 +356,8 @@ def crash_sig(out):
         line = line.strip()
         if line.startswith("panic:") or line.startswith("fatal error:"):
             return line[:120]
+        if line.startswith("WARNING: DATA RACE"):
+            return "data race"
     return "unknown"
 
 
